@@ -155,4 +155,14 @@ PROPS = {
         rule='case = one history incl. delivery schedule; distinct = hash of the rendered history; every history is non-trivial.',
         exhaustive=dict(quick=False, thorough=False),
         assumptions=['reference protocol model harness/c20.cpp']),
+    'C14': dict(
+        level_text='Runtime monitoring against per-kind reference semantics: the library\'s own macro callbacks (rParamCb on signed and unsigned char, rParamICb, rParamFCb, rToggleCb, rOptionCb, rStringCb, rArrayFCb, rArrayICb, rArrayTCb, rArrayOptionCb) are combined with run-time generated port names, array lengths 1..8 and metadata (min/max both, one-sided, negative, fractional, absent; option maps), at the root or below a sub-tree port. Sequences of 20..100 set/query messages per configuration (values in range, at and one beyond each bound, storage-type extremes, non-integral floats, option symbols and indices) are dispatched with a location buffer; after each message the whole runtime object is compared bytewise with the reference (clamped value stored, nothing else touched), and the captured reply/broadcast/undo messages are checked for count, full address, type, value, and (old,new) of the undo event.',
+        level_note='Trusts the reference semantics in harness/c14.cpp (clamp with atoi/atof of the metadata strings as a reader of the metadata would). Char-backed kinds are driven with values the storage type can represent; unknown option symbols are excluded; array port names contain no digits.',
+        technique='reference-model differential monitor with full object snapshots, AddressSanitizer/UBSan',
+        stages=[dict(harness='c14', variant='asan', quick=1600, thorough=100000,
+                     need=['msgs.query', 'msgs.set', 'undo.expected_event', 'undo.expected_none', 'options.split_mapping_block'] + ['kind.' + k for k in ['rParam(char)', 'rParam(uchar)', 'rParamI', 'rParamF', 'rToggle', 'rOption', 'rString', 'rArrayF', 'rArrayI', 'rArrayT', 'rArrayOption']])],
+        rule='case = one port configuration (kind, name, metadata, array length, nesting) with a sequence of 20..100 messages; evaluations counts messages; '
+             'distinct = hash of the configuration; every case is non-trivial.',
+        exhaustive=dict(quick=False, thorough=False),
+        assumptions=['reference port semantics harness/c14.cpp']),
 }
